@@ -18,8 +18,8 @@ ID = "C18"
 CASES = {"quick": 3000, "thorough": 40000}
 FLOOR = {"quick": 2700, "thorough": 36000}
 FLOOR_COUNTERS = {
-    "quick": {"reused_linear_estimator_objects": 250, "competitors_tried": 25000, "planted_maps": 400, "padded_fits": 1200, "projector_fits": 1200, "estimators_with_a_past": 900, "one_dimensional_targets": 50, "other_units": 600, "configured_by_attribute_assignment": 1000, "edge_shapes": 600, "reduced_space_checks": 900},
-    "thorough": {"reused_linear_estimator_objects": 3500, "competitors_tried": 350000, "planted_maps": 7000, "padded_fits": 16000, "projector_fits": 16000, "estimators_with_a_past": 12000, "one_dimensional_targets": 700, "other_units": 8000, "configured_by_attribute_assignment": 14000, "edge_shapes": 8000, "reduced_space_checks": 12000},
+    "quick": {"reused_linear_estimator_objects": 250, "competitors_tried": 25000, "planted_maps": 400, "padded_fits": 1200, "projector_fits": 1200, "estimators_with_a_past": 900, "one_dimensional_targets": 50, "other_units": 600, "configured_by_attribute_assignment": 1000, "edge_shapes": 600, "reduced_space_checks": 900, "more_than_1024_samples": 30, "planted_rotations_near_identity": 150},
+    "thorough": {"reused_linear_estimator_objects": 3500, "competitors_tried": 350000, "planted_maps": 7000, "padded_fits": 16000, "projector_fits": 16000, "estimators_with_a_past": 12000, "one_dimensional_targets": 700, "other_units": 8000, "configured_by_attribute_assignment": 14000, "edge_shapes": 8000, "reduced_space_checks": 12000, "more_than_1024_samples": 500, "planted_rotations_near_identity": 2000},
 }
 RULE = (
     "case = X (n 6-40, f 1-8), y (p 1-8; noisy linear, pure noise, or planted y = X A with A a (partial) isometry), mode "
@@ -39,6 +39,10 @@ def gen(rng, tier, index):
     n = int(rng.integers(9, 41))
     f, p = int(rng.integers(1, 9)), int(rng.integers(1, 9))
     edge = gens.pick(rng, (None,) * 8 + ("one_sample", "two_samples", "constant_first_feature", "zero_first_feature"))
+    many = index % 60 == 13  # more samples than an implementation would accumulate in one block (1024, 2048)
+    if many:
+        edge = None
+        n = int(gens.pick(rng, (1300, 1500, 2500, 3000)))
     if edge == "one_sample":
         n = 1
     elif edge == "two_samples":
@@ -55,14 +59,25 @@ def gen(rng, tier, index):
         X[:, 0] = 1.0  # a bias column
     elif edge == "zero_first_feature":
         X[:, 0] = 0.0
-    kind = gens.pick(rng, ("planted", "noisy", "noise"))
+    kind = gens.pick(rng, ("planted", "noisy", "noise", "planted_near_identity"))
+    if many:
+        kind = "noisy"
     A = None
     if kind == "planted":
         Q = gens.orthogonal(rng, max(f, p))
         A = Q[:f, :p]  # orthonormal rows if f <= p, orthonormal columns if f >= p
         y = X @ A
+    elif kind == "planted_near_identity":  # the true map is a rotation by a tiny, but resolvable, angle
+        p = f
+        theta = float(10.0 ** rng.uniform(-9, -5))
+        A = expm(theta * _skew(rng, f)) if f > 1 else np.eye(1)
+        y = X @ A
+        kind = "planted"
     elif kind == "noisy":
         y = X @ rng.normal(size=(f, p)) + 0.3 * rng.normal(size=(n, p))
+        if many:  # ordered data: the last third follows another linear law, so no prefix determines the optimum
+            cut_ = (2 * n) // 3
+            y[cut_:] = X[cut_:] @ rng.normal(size=(f, p)) * 2.0 + 0.3 * rng.normal(size=(n - cut_, p))
     else:
         y = rng.normal(size=(n, p))
     if kind != "planted" and rng.random() < 0.4:  # targets with an offset: slope and raw correlation may disagree in sign
@@ -76,6 +91,8 @@ def gen(rng, tier, index):
         X, y = X * ux, y * uy
     return {
         "edge": edge,
+        "many": bool(many),
+        "near_identity": bool(kind == "planted" and A is not None and p == f and f > 1 and float(np.abs(A - np.eye(f)).max()) < 1e-4),
         "carry": gens.pick(rng, forms.CARRY),
         "how": gens.pick(rng, ("ctor", "ctor", "setattr", "setattr_after_decoy")),
         "units": [ux, uy],
@@ -85,7 +102,7 @@ def gen(rng, tier, index):
         "y": y,
         "A": A,
         "kind": kind,
-        "projector": bool((index // 3) % 2),
+        "projector": bool((index // 3) % 2) if not many else bool(index % 120 == 13 or index % 180 == 73),
         "est": gens.pick(rng, ("none", "lr", "lr_noint", "ridge")),
         "cseed": int(rng.integers(1 << 30)),
         "Z": rng.normal(size=(5, f)) * ux,
@@ -129,6 +146,10 @@ def run(case, j):
         est.use_orthogonal_projector = proj
         est.linear_estimator = lin
         j.note("configured_by_attribute_assignment")
+    if case.get("many"):
+        j.note("more_than_1024_samples")
+    if case.get("near_identity"):
+        j.note("planted_rotations_near_identity")
     edge = case.get("edge")
     if edge:
         j.note("edge_shapes")
@@ -162,7 +183,10 @@ def run(case, j):
         pred = np.asarray(est.predict(X))
         j.close("predict(X) == padded X @ Omega", pred, Xp @ Om, 1e-10 * max(float(np.abs(Xp).max()), 1e-300))
         res = float(np.linalg.norm(yp - Xp @ Om))
+        from scipy.linalg import orthogonal_procrustes as _op
+
         comps = [gens.orthogonal(rng, mc) for _ in range(6)] + [Om @ expm(eps * _skew(rng, mc)) for eps in (1e-1, 1e-2, 1e-3)]
+        comps.append(_op(Xp, yp)[0])  # the textbook optimum (polar factor of Xp^T yp), computed here
         for C in comps:
             rc = float(np.linalg.norm(yp - Xp @ C))
             j.ok("training residual no larger than for any other orthogonal matrix of the padded size", res <= rc + 1e-9 * (ny + rc), (res, rc))
@@ -171,7 +195,7 @@ def run(case, j):
         j.close("predict(Z) == zero-padded Z @ Omega on new data", pz, np.pad(Z, [(0, 0), (0, mc - f)]) @ Om, 1e-10 * max(float(np.abs(Z).max()), 1e-300))
         j.close("predictions keep the norm of their inputs", np.linalg.norm(pz, axis=1), np.linalg.norm(Z, axis=1), 1e-10 * max(float(np.abs(Z).max()), 1e-300) * 10)
         if A is not None and f <= p:
-            j.ok("planted orthogonal map: training residual vanishes", res <= 1e-8 * ny, (res, ny))
+            j.ok("planted orthogonal map: training residual vanishes", res <= (1e-12 if case.get("near_identity") else 1e-8) * ny, (res, ny))
             j.close("planted map recovered on the range of X", Om[:f, :p], A, 1e-7)
             j.note("planted_maps")
     else:
@@ -199,13 +223,16 @@ def run(case, j):
         U, _, Vt = np.linalg.svd(Om, full_matrices=False)
         R0 = U.T @ Om @ Vt.T
         res = float(np.linalg.norm(y - X @ Om))
+        from scipy.linalg import orthogonal_procrustes as _op
+
         comps = [gens.orthogonal(rng, r) for _ in range(6)] + [R0 @ expm(eps * _skew(rng, r)) for eps in (1e-1, 1e-2, 1e-3)]
+        comps.append(_op(X @ U, y.reshape(n, -1) @ Vt.T)[0])  # the textbook optimum between the reduced spaces, computed here
         for Rc in comps:
             rc = float(np.linalg.norm(y - X @ (U @ Rc @ Vt)))
             j.ok("training residual no larger than for any other rotation between the reduced spaces", res <= rc + 1e-9 * (ny + rc), (res, rc))
             j.note("competitors_tried")
         if A is not None and case["est"] != "ridge":
-            j.ok("planted (partial) isometry: training residual vanishes", res <= 1e-8 * ny, (res, ny))
+            j.ok("planted (partial) isometry: training residual vanishes", res <= (1e-12 if case.get("near_identity") else 1e-8) * ny, (res, ny))
             j.close("planted map recovered", Om, A, 1e-7)
             j.note("planted_maps")
     j.nontrivial = f != p or A is not None
